@@ -10,9 +10,12 @@
            method of src/map.rs, or per way of using the entry API) and what each of them has to return /
            do to the CONTENTS, expressed with Part 1 only ([ref_step]), and to the ORDER, expressed with
            Part 2 only ([ord_step]).
+   Part 4: vocabulary for the statements about Value: well-formed values, "the same value with object entries
+           written in another order" ([vperm]), "every object ascending at every depth" ([all_sorted]).
    Definitions only; no lemma here. *)
-From SJ Require Import Base.Bytes Model.Value.
+From SJ Require Import Base.Bytes Base.FloatB Model.Value.
 From Coq Require Import Sorting.Permutation Sorting.Sorted.
+From Flocq Require Import Core BinarySingleNaN.
 Open Scope N_scope.
 
 (* ------------------------------------------------------------------ Part 1: dictionary *)
@@ -287,4 +290,50 @@ Fixpoint ord_run (d : dict value) (ks : list bytes) (ops : list op) : list bytes
   match ops with
   | [] => ks
   | o :: r => ord_run (fst (ref_step true d o)) (ord_step d ks o) r
+  end.
+
+(* ------------------------------------------------------------------ Part 4: values *)
+(* what every Value built through the API satisfies: object keys are distinct (ascending in the default
+   configuration) at every depth, floats are finite (Number::from_f64 refuses NaN and infinities) *)
+Definition keys_ok (po : bool) (ks : list bytes) : Prop := if po then NoDup ks else ascending ks.
+
+Fixpoint wfv (po : bool) (v : value) : Prop :=
+  match v with
+  | VNum (NFloat f) => is_finite f = true
+  | VArr l => (fix all (l : list value) : Prop := match l with [] => True | x :: r => wfv po x /\ all r end) l
+  | VObj m => keys_ok po (map fst m) /\
+              (fix all (m : list (bytes * value)) : Prop := match m with [] => True | (_, x) :: r => wfv po x /\ all r end) m
+  | _ => True
+  end.
+
+
+(* [vperm a b]: b is a with the entries of every object, at every depth, written in another order *)
+Fixpoint vperm (a b : value) {struct a} : Prop :=
+  match a, b with
+  | VArr la, VArr lb =>
+    (fix go (la lb : list value) {struct la} : Prop :=
+       match la, lb with
+       | [], [] => True
+       | x :: la', y :: lb' => vperm x y /\ go la' lb'
+       | _, _ => False
+       end) la lb
+  | VObj ma, VObj mb =>
+    exists mb', Permutation mb' mb /\
+      (fix go (ma mb' : list (bytes * value)) {struct ma} : Prop :=
+         match ma, mb' with
+         | [], [] => True
+         | (k, x) :: ma', (k', y) :: r => k = k' /\ vperm x y /\ go ma' r
+         | _, _ => False
+         end) ma mb'
+  | VArr _, _ | VObj _, _ => False
+  | _, _ => a = b
+  end.
+
+
+Fixpoint all_sorted (v : value) : Prop :=
+  match v with
+  | VArr l => (fix all (l : list value) : Prop := match l with [] => True | x :: r => all_sorted x /\ all r end) l
+  | VObj m => ascending (map fst m) /\
+              (fix all (m : list (bytes * value)) : Prop := match m with [] => True | (_, x) :: r => all_sorted x /\ all r end) m
+  | _ => True
   end.
